@@ -533,7 +533,25 @@ where
         off: usize,
         re_str: &'a str,
     ) -> LexInternalBuildResult<(Vec<usize>, std::borrow::Cow<'a, str>)> {
-        if !re_str.starts_with('<') {
+        // The regular expression proper comes after any `<STATE,...>` prefix: both kinds of rule
+        // have their lex escapes resolved.
+        let (start_states, re_str) = if !re_str.starts_with('<') {
+            (vec![], re_str)
+        } else {
+            match re_str.find('>') {
+                None => return Err(self.mk_error(LexErrorKind::InvalidStartState, off)),
+                Some(j) => {
+                    let start_states = re_str[1..j]
+                        .split(',')
+                        .map(|s| s.trim_matches(matches_whitespace))
+                        .map(|s| self.get_start_state_by_name(off, s))
+                        .map(|s| s.map(|ss| ss.id))
+                        .collect::<LexInternalBuildResult<Vec<usize>>>()?;
+                    (start_states, &re_str[j + 1..])
+                }
+            }
+        };
+        {
             /// This implements the 'Table: Escape Sequences in lex' from POSIX lex specification
             ///
             /// Most of the escape handling is left to regex, except this part:
@@ -632,20 +650,7 @@ where
                 }
                 Cow::from(unescaped)
             }
-            Ok((vec![], unescape(Cow::from(re_str), &self.lex_flags)))
-        } else {
-            match re_str.find('>') {
-                None => Err(self.mk_error(LexErrorKind::InvalidStartState, off)),
-                Some(j) => {
-                    let start_states = re_str[1..j]
-                        .split(',')
-                        .map(|s| s.trim_matches(matches_whitespace))
-                        .map(|s| self.get_start_state_by_name(off, s))
-                        .map(|s| s.map(|ss| ss.id))
-                        .collect::<LexInternalBuildResult<Vec<usize>>>()?;
-                    Ok((start_states, Cow::from(&re_str[j + 1..])))
-                }
-            }
+            Ok((start_states, unescape(Cow::from(re_str), &self.lex_flags)))
         }
     }
 
